@@ -246,12 +246,14 @@ ROUTERS_SINGLE = ["single", "single:0"]
 def resolver_ops(rng, which=None, multi_after=None):
     """one of the sink-resolved operator sequences of C01/C02"""
     w = which or rng.choice(["pflood_single", "pflood_multi", "mst_kc", "mst_kb", "mst_bc", "mst_bb"])
+    # now and then the multi-threaded variant of the single router (same observable result)
+    single = "single" if rng.random() < 0.8 else "single:%d" % rng.choice([2, 3, 4])
     if w == "pflood_single":
-        return ["pflood", "single"]
+        return ["pflood", single]
     if w == "pflood_multi":
         return ["pflood", "multi:" + hx(rng.choice([0.0, 0.5, 1.0, 1.1, 2.0, 8.0]))]
     m = {"mst_kc": "mst:k:carve", "mst_kb": "mst:k:basic", "mst_bc": "mst:b:carve", "mst_bb": "mst:b:basic"}[w]
-    ops = ["single", m]
+    ops = [single, m]
     ma = rng.random() < 0.3 if multi_after is None else multi_after
     if ma:
         ops.append("multi:" + hx(rng.choice([0.0, 1.0, 1.1, 2.0])))
